@@ -82,6 +82,55 @@ def _poly_at(p: Any, val: dict[str, int]) -> Fraction | None:
     return tot
 
 
+def _canon(p: Any) -> Any:
+    """`x if y < x else y` is max(x, y) (`min` alike), nested max / min are
+    flattened and their arguments ordered: the bound may be written with
+    conditionals instead of the builtins."""
+    if not isinstance(p, Poly):
+        return p
+
+    def atom(a: Any) -> Poly:
+        if a[0] == "ite" and a[1][0] in ("lt", "le") and isinstance(
+                a[2], Poly) and isinstance(a[3], Poly):
+            x, y = _canon(a[2]), _canon(a[3])
+            lo, hi = _canon(a[1][1]), _canon(a[1][2])
+            if {lo, hi} == {x, y} and x != y:
+                # taken value x when lo < hi: x == hi -> max, x == lo -> min
+                return _mk("max" if x == hi else "min", [x, y])
+        if a[0] == "app" and a[1] in ("max", "min"):
+            return _mk(a[1], [_canon(q) for q in a[2]])
+        if a[0] == "app":
+            return Poly.atom((a[0], a[1], tuple(
+                _canon(q) if isinstance(q, Poly) else q for q in a[2])))
+        return Poly.atom(a)
+
+    def _mk(kind: str, args: list[Poly]) -> Poly:
+        flat: list[Poly] = []
+        for q in args:
+            qa = q.as_atom()
+            if qa is not None and qa[0] == "app" and qa[1] == kind:
+                flat += list(qa[2])
+            else:
+                flat.append(q)
+        cs = [q for q in flat if q.const_value() is not None]
+        vs = sorted({q.key(): q for q in flat
+                     if q.const_value() is None}.values(),
+                    key=lambda q: repr(q.key()))
+        if cs:
+            cv = (max if kind == "max" else min)(
+                q.const_value() for q in cs)
+            vs.append(Poly.const(cv))
+        return vs[0] if len(vs) == 1 else Poly.atom(
+            ("app", kind, tuple(vs)))
+    out = Poly()
+    for mono, c in p.terms.items():
+        t = Poly.const(c)
+        for a, e in mono:
+            t = t * atom(a).pow(e)
+        out = out + t
+    return out
+
+
 class _Strip(ast.NodeTransformer):
     """`self.instance.F` / `x.instance.F` -> `F`."""
 
@@ -225,14 +274,27 @@ def check(ctx: Ctx) -> None:
     rets = [r for r in ast.walk(ubf.node) if isinstance(r, ast.Return)
             and r.value is not None]
     ub: Any = None
-    if len(rets) == 1:
-        e = _Strip().visit(inline_locals(ubf.node, rets[0].value))
-        ast.fix_missing_locations(e)
-        ev = make_evaluator(repo, ubf)
+    if rets:
+        import copy as _copy
+        from sa.kern import py_calls
+        from sa.srcmodel import func_body
+        ev = make_evaluator(repo, ubf, extra_call=py_calls)
         ev.int_transparent = True
         try:
-            ub = ev.num(Env(), e)
-            ref = ev.num(Env(), ast.parse(_B_REF, mode="eval").body)
+            # the whole method is executed symbolically (locals that are
+            # assigned in steps or under conditions included)
+            body = [ast.fix_missing_locations(_Strip().visit(
+                _copy.deepcopy(st))) for st in func_body(ubf)]
+            raw = ev.block(Env(), body).returned
+            if isinstance(raw, Poly):
+                from sa.symterm import all_atoms
+                ren = {a: Poly.var(str(a[1]).rsplit(".", 1)[-1])
+                       for a in all_atoms(raw)
+                       if a[0] == "var" and ".instance." in str(a[1])}
+                raw = raw.subst(ren) if ren else raw
+            ub = _canon(raw)
+            ref = _canon(ev.num(Env(), ast.parse(
+                _B_REF, mode="eval").body))
         except Unsupported:
             ub = None
     if not isinstance(ub, Poly):
